@@ -924,7 +924,8 @@ class Exec:
         # calls whose converter is inferred from run-time values (serialisation without a declared type, the
         # constructor path) are the ones a process-wide, value-type-keyed cache would poison: always judged
         # against a pristine process; the others are sampled
-        p_pristine = 1.0 if (cs is not None and cs['kind'] in ('serialise', 'construct')) else self.knobs.get('pristine_p', 0.3)
+        p_pristine = 1.0 if (cs is not None and (cs['kind'] in ('serialise', 'construct') or cs.get('always_pristine'))) \
+            else self.knobs.get('pristine_p', 0.3)
         if cs is not None and self.pristine is not None and self.oracle_rng.random() < p_pristine:
             fp3 = self.pristine.call(self.pristine_request(cs, deps))
             self.count('pristine_process_compared')
@@ -994,7 +995,7 @@ class Exec:
             return mk
         raise HarnessError(f"unknown call spec {cs!r}")
 
-    def fresh_world(self, deps, siblings=True):
+    def fresh_world(self, deps, siblings=False):
         """Replay the definitional history (no conversions) that `deps` depend on into a pristine world."""
         need_cls, need_roots, need_insts = set(), set(), set()
 
@@ -1061,8 +1062,9 @@ class Exec:
                 elif k == 'build' and op['name'] in need_roots:
                     w2.refs[op['name']] = tg.build(op['t'], w2)
                 elif k == 'subscript' and (op['name'] in need_roots or (siblings and op.get('g', op['t'][1]) in need_cls)):
-                    # siblings=True: every earlier subscription of the classes involved is replayed in order, so that
-                    # the subclass memo sees the same history (its order dependence is judged in op_subscript only)
+                    # siblings=True would replay every earlier subscription of the classes involved (used while a
+                    # subscription-order defect was a *listed* finding, to keep it out of other operations' verdicts);
+                    # since its repair only the subscriptions the target actually depends on are replayed
                     if self._deps_ok(op['t'], w2):
                         w2.refs[op['name']] = tg.build(op['t'], w2)
             for name in need_insts:
@@ -1379,8 +1381,10 @@ class Exec:
             raise Violation('history_dependent', f"{op.get('g', ast[1])}[{', '.join(map(str, params))}] behaves differently from "
                                                  f"{label}: {self._short(a)} vs {self._short(b)}")
         # and the ordinary history check on the memoised class
-        cs = {'kind': 'convert', 'root': rname, 'data': op['data'], 'custom': None}
-        self.compare(f"from_data(<{rname}>) [subscript]", self.mk_from_cs(cs), deps=[('root', rname)])
+        # a specialisation is also judged against a process that has never subscripted (or converted) anything
+        # else: typing's own memo tables are part of what earlier subscriptions leave behind
+        cs = {'kind': 'convert', 'root': rname, 'data': op['data'], 'custom': None, 'always_pristine': True}
+        self.compare(f"from_data(<{rname}>) [subscript]", self.mk_from_cs(cs), deps=[('root', rname)], cs=cs)
 
     def _release(self, holder, key):
         obj = holder[key]
